@@ -246,3 +246,7 @@ Proof. intros A NA E U P g opts st. apply generated_step_is_the_model. Qed.
 
 Theorem glue_value : regenerated_glue_gives_the_model_value.
 Proof. intros A NA E U P g opts st out. apply generated_step_value. Qed.
+
+Theorem defaults_tie : element_level_defaults_as_documented.
+Proof. reflexivity. Qed.
+
